@@ -75,23 +75,26 @@ type Kernel struct {
 
 	deltaRng *rand.Rand
 
-	mu       sync.Mutex
-	step     int
-	log      []string
-	window   []string
-	probes   map[string]int
-	faults   map[string]int
-	parks    map[string]int
-	tasks    []*Task
-	parked   []*parked
-	plan     []ParkSpec
-	armed    map[string]bool
-	pcount   map[string]int
-	settling bool
-	viol     *Violation
-	opsDone  int
-	start    time.Time
-	keepLog  bool
+	mu     sync.Mutex
+	step   int
+	log    []string
+	window []string
+	probes map[string]int
+	faults map[string]int
+	parks  map[string]int
+	tasks  []*Task
+	parked []*parked
+	// burst barrier (parallel passes): tasks released together spin until all have arrived
+	burstWant    int32
+	burstArrived int32
+	plan         []ParkSpec
+	armed        map[string]bool
+	pcount       map[string]int
+	settling     bool
+	viol         *Violation
+	opsDone      int
+	start        time.Time
+	keepLog      bool
 }
 
 // New creates a kernel. It must be called inside the synctest bubble.
@@ -242,7 +245,17 @@ func (t *Task) Step(label string) bool {
 	t.idle = true
 	t.Op = label
 	k.mu.Unlock()
-	return <-t.gate
+	ok := <-t.gate
+	if want := atomic.LoadInt32(&k.burstWant); ok && want > 0 {
+		// released in a burst: start at the same instant as the others (spin barrier)
+		atomic.AddInt32(&k.burstArrived, 1)
+		for i := 0; atomic.LoadInt32(&k.burstArrived) < want && i < 2000000; i++ {
+			if i&1023 == 1023 {
+				runtime.Gosched()
+			}
+		}
+	}
+	return ok
 }
 
 // TasksDone reports whether every task function has returned.
@@ -420,7 +433,38 @@ func (k *Kernel) collect() []Action {
 				t.idle = false
 				k.Current = t.Name
 				k.mu.Unlock()
+				atomic.StoreInt32(&k.burstWant, 0)
 				t.gate <- true
+			}})
+		}
+	}
+	if runtime.GOMAXPROCS(0) > 1 {
+		// a parallel pass (the child runs with several processors): releasing every idle
+		// task at once makes their operations really overlap, which is the only way to put
+		// two callers inside a stretch of driver code that has no yield point
+		var idle []*Task
+		for _, t := range k.tasks {
+			if t.idle && !t.done {
+				idle = append(idle, t)
+			}
+		}
+		if max := runtime.GOMAXPROCS(0); len(idle) > max {
+			idle = idle[:max]
+		}
+		if len(idle) >= 2 {
+			acts = append(acts, Action{Key: "task-burst", Rank: 0, Weight: 2 * k.TaskWeight, Do: func() {
+				k.mu.Lock()
+				for _, t := range idle {
+					t.idle = false
+				}
+				k.Current = idle[0].Name
+				k.probes["parallel.task-burst"]++
+				k.mu.Unlock()
+				atomic.StoreInt32(&k.burstArrived, 0)
+				atomic.StoreInt32(&k.burstWant, int32(len(idle)))
+				for _, t := range idle {
+					t.gate <- true
+				}
 			}})
 		}
 	}
